@@ -10,7 +10,7 @@ oracle:          the property itself, in python: echo of day z = normalised file
 """
 import datetime, os, random, re
 from core import Corr, Fail, chunked_list
-from props import wxlib
+from props import wxlib, toklib
 from props.wxlib import daynum, date_of, doy, ylen, de, hexf, ONE
 
 PROP_FILES = ["Prop_C04"]
@@ -20,8 +20,13 @@ RULE = ("one case = one whole run (layout x scenario x seed: complete series wit
         "were compared")
 TRUSTED = ["python datetime as the civil-calendar reference of the oracle",
            "Go strconv.ParseFloat / time.Parse and python float()/date agree on the generated decimal texts (exercised, not modelled)",
-           "verif probe at 'dayend' reads g.TEMPdaily..g.REGENdaily, g.TAG, g.J, g.JTAG"]
-ASSUMPTIONS = ["tokenisation (Explode), strconv and time.Parse are not modelled: records enter the model as numbers with their date key",
+           "verif probe at 'dayend' reads g.TEMPdaily..g.REGENdaily, g.TAG, g.J, g.JTAG",
+           "harness c04tok calls the exported readers directly and classifies a process exit with status 1 and a log line as log.Fatal"]
+ASSUMPTIONS = ["strconv.ParseFloat modelled for plain decimal texts ([+-]digits[.digits], < 2^53 as digit string, <= 22 fraction digits: "
+               "value = correctly rounded m/10^k); texts with a character outside the float alphabet are errors; exponent/hex/inf/"
+               "nan spellings: model abstains (TUnk)",
+               "time.Parse modelled for the layouts 2006-01-02 and 2006002 (fixed widths, civil-calendar validity); bytes = runes (ASCII)",
+               "a header line carrying two synonyms of one column (Go map iteration order decides) is outside the model",
                "VERD/SUND/ETNULL columns are not modelled (not echoed)",
                "generated records keep tmin <= tmax + 0.5 (LoadYear swaps them otherwise; the swap is in the model, not in the oracle)",
                "Go int arithmetic on unbounded Z (all values < 2^31)"]
@@ -215,9 +220,9 @@ def coq_case(c, run):
 def correspond(ctx):
     c = Corr()
     rc, cases, runs, err = _run(ctx)
-    ok, out = ctx.coq_make(["C04Corr"])
+    ok, out = ctx.coq_make(["C04Corr", "C04TokCorr"])
     if not ok:
-        c.mismatches.append({"kind": "coq-build", "what": "C04Corr does not build", "output": out[-1500:]})
+        c.mismatches.append({"kind": "coq-build", "what": "C04Corr / C04TokCorr do not build", "output": out[-1500:]})
         return c
     if rc != 0 or len(runs) != len(cases):
         c.mismatches.append({"kind": "harness-crash", "rc": rc, "runs": len(runs), "of": len(cases), "stderr": err[-1500:]})
@@ -260,7 +265,42 @@ def correspond(ctx):
                 c.mismatches.append({"kind": "coq-eval", "shard": name, "output": o[-800:]})
     c.cases = len(recs)
     c.samples = [_describe(cs) for cs in cases[:6]]
+    # ---- character level: generated files through the real readers vs WeatherTokModel
+    tcases, tres, restarts = _run_tok(ctx)
+    mm, broken, unusable = toklib.evaluate(ctx, tcases, tres)
+    for b in broken:
+        c.mismatches.append(b)
+    for i in unusable:
+        c.mismatches.append({"kind": "reader-crash", "what": "the reader process ended in neither log.Fatal nor a recovered panic",
+                             "class": tres[i]["class"], "stderr": tres[i].get("err", ""), "file": tcases[i]["text"][:400]})
+    abst = 0
+    for i, code in mm:
+        if code == 9:
+            abst += 1
+            continue
+        tc = tcases[i]
+        c.mismatches.append({"kind": "tokenisation", "what": "character-level model and real reader differ (%s)"
+                             % {1: "result class", 2: "stored arrays / LoadYear values"}.get(code, code),
+                             "layout": tc["layout"], "numheader": tc["nh"], "real_class": tres[i]["class"], "mutation": tc.get("mut"),
+                             "file": tc["text"][:600]})
+    c.cases += len(tcases) - abst
+    c.nontrivial += sum(len(s_["cells"]) for o in tres for s_ in o.get("slots", []))
+    cls = {}
+    for o in tres:
+        cls[o["class"]] = cls.get(o["class"], 0) + 1
+    c.dist["tok_files"] = len(tcases); c.dist["tok_model_abstains"] = abst
+    for k, v in cls.items():
+        c.dist["tok_class_" + k] = v
     return c
+
+
+def _run_tok(ctx):
+    if "tok" not in _cache:
+        root = wxlib.make_tree(ctx, "c04")
+        tcases = toklib.gen_files(ctx)
+        tres, restarts = toklib.run_real(ctx, root, tcases)
+        _cache["tok"] = (tcases, tres, restarts)
+    return _cache["tok"]
 
 
 def _describe(cs):
@@ -398,12 +438,30 @@ def oracle(ctx, search):
             fails.append(Fail(key="day-count:layout%d:%s" % (cs["layout"], cs["scen"]),
                               what="%d simulated days, expected %d" % (len(days), want_days), case=desc))
     ctx.extra["oracle_days_checked"] = checked
+    # ---- character level, the property's domain: well-formed files are read back value for value
+    tcases, tres, restarts = _run_tok(ctx)
+    badwf, nwf = toklib.oracle_wellformed(tcases, tres)
+    for tc, what in badwf:
+        fails.append(Fail(key="well-formed-file-misread:layout%d:%d" % (tc["layout"], tc["idx"]), what=what,
+                          layout=tc["layout"], numheader=tc["nh"], file=tc["text"][:800]))
+    ctx.extra["oracle_wellformed_lines_checked"] = nwf
+    # malformed lines are outside the property's quantifier (decision of the lead): observed, never an alarm
+    shifted, stats = toklib.oracle_malformed(tcases, tres)
+    ctx.extra["observed_outside_property"] = {
+        "what": "malformed data lines (empty field, decimal comma, dropped field) that the multi-year readers accept as a record "
+                "shifted by one column because Explode drops empty fields and the token count is never compared with the header; "
+                "characterised by Prop_C04.C04_tok_csv_line_characterised, witnesses C04_tok_malformed_line_witnesses",
+        "shifted_records_this_run": len(shifted),
+        "examples": [{"layout": tc["layout"], "mutation": tc["mut"], "what": w} for tc, w in shifted[:5]],
+        "malformed_line_outcomes": {"%s->%s" % k: v for k, v in sorted(stats.items())}}
     return fails
 
 
 LEVEL_TEXT = ("Machine-checked proof (Coq) about the model of the weather loaders and the calendar stepping, for every series "
               "and every simulation window 1901-2099; the model is run against whole runs of the real simulator (all three "
               "layouts) each check, bit-exact per simulated day; the property itself is evaluated on the same runs.")
-LEVEL_NOTE = ("Partial: tokenisation/strconv/time.Parse are exercised, not modelled; F9 (discarded loader errors) is a known "
+LEVEL_NOTE = ("Tokenisation modelled at character level (Explode, TrimSpace, plain-decimal ParseFloat/ParseInt, the two date "
+              "layouts, header lines) and tied bit-exact through the real readers; exponent/hex/inf/nan spellings are outside the "
+              "modelled fragment (model abstains). F9 (discarded loader errors) is a known "
               "finding: uncovered_is_error is refuted at model level next to its conditional version. No axioms.")
 TECHNIQUE = "Coq proof (lia over the C12 calendar results, induction over record lists) + whole-run model/code correspondence + direct oracle"
